@@ -1724,4 +1724,252 @@ example : strictFold 5 [(5, 0), (1, 1)] = (5, -1) := by decide
 example : (⟨[3], fun _ => (1 : ℚ), fun k => (k.headD 0 : ℚ), fun k => (k.headD 0 : ℚ)⟩ : Win ℚ).n = 3 := by
   simp [Win.n, sumShape, sumRange]; norm_num
 
+/-! ### deepening 6: equality cases, antisymmetry, offsets, strict maxima, eps guard -/
+section deepen6
+variable {α : Type} [Field α] [LinearOrder α] [IsStrictOrderedRing α]
+variable (W : Win α)
+
+/-- **|score| ≤ 1 in absolute-value form** for arbitrary non-negative (doubly-)masked weights -/
+theorem Win.score_abs_le_one (hw : ∀ k, inShape W.ms k = true → 0 ≤ W.w k) (hn : 0 < W.n)
+    (σ sd : α) (hσ : 0 < σ) (hsd : 0 < sd) (eσ : σ * σ = W.B / W.n) (esd : sd * sd = W.A / W.n) :
+    |(W.N / σ) / (sd * W.n)| ≤ 1 := by
+  have h := W.score_sq_le_one hw hn σ sd hσ hsd eσ esd
+  exact (sq_le_one_iff_abs_le_one _).mp h
+
+/-- the lower half of the bound: a normalised score is never below `-1` -/
+theorem Win.neg_one_le_score (hw : ∀ k, inShape W.ms k = true → 0 ≤ W.w k) (hn : 0 < W.n)
+    (σ sd : α) (hσ : 0 < σ) (hsd : 0 < sd) (eσ : σ * σ = W.B / W.n) (esd : sd * sd = W.A / W.n) :
+    -1 ≤ (W.N / σ) / (sd * W.n) :=
+  (abs_le.mp (W.score_abs_le_one hw hn σ sd hσ hsd eσ esd)).1
+
+/-- **the eps guard only shrinks**: dividing by `max(sd·n, eps)` instead of `sd·n` keeps `|score| ≤ 1` -/
+theorem Win.score_eps_guard_abs_le_one (hw : ∀ k, inShape W.ms k = true → 0 ≤ W.w k) (hn : 0 < W.n)
+    (σ sd eps : α) (hσ : 0 < σ) (hsd : 0 < sd) (eσ : σ * σ = W.B / W.n) (esd : sd * sd = W.A / W.n) :
+    |(W.N / σ) / max (sd * W.n) eps| ≤ 1 := by
+  have h := W.score_abs_le_one hw hn σ sd hσ hsd eσ esd
+  have hd : 0 < sd * W.n := mul_pos hsd hn
+  have hm : 0 < max (sd * W.n) eps := lt_of_lt_of_le hd (le_max_left _ _)
+  rw [abs_div, abs_of_pos hd] at h
+  rw [abs_div, abs_of_pos hm]
+  refine le_trans ?_ h
+  exact div_le_div_of_nonneg_left (abs_nonneg _) hd (le_max_left _ _)
+
+/-- **strict maximum**: a window for which Cauchy–Schwarz is strict (not an affine image of the template under
+the mask) scores strictly below the planted value 1 -/
+theorem Win.score_lt_one_of_strict (hn : 0 < W.n)
+    (σ sd : α) (hσ : 0 < σ) (hsd : 0 < sd) (eσ : σ * σ = W.B / W.n) (esd : sd * sd = W.A / W.n)
+    (hlt : W.N ^ 2 < W.A * W.B) :
+    (W.N / σ) / (sd * W.n) < 1 := by
+  have hB : W.B = σ * σ * W.n := by rw [eσ]; field_simp
+  have hA : W.A = sd * sd * W.n := by rw [esd]; field_simp
+  rw [hA, hB] at hlt
+  have hd : 0 < σ * (sd * W.n) := by positivity
+  rw [div_div, div_lt_one hd]
+  by_contra hge
+  have hge := not_lt.mp hge
+  have : (σ * (sd * W.n)) ^ 2 ≤ W.N ^ 2 := pow_le_pow_left₀ hd.le hge 2
+  nlinarith
+
+/-- **converse of the equality case**: a score of exactly 1 forces equality in Cauchy–Schwarz, `N² = A·B` -/
+theorem Win.cs_eq_of_score_eq_one (hn : 0 < W.n)
+    (σ sd : α) (hσ : 0 < σ) (hsd : 0 < sd) (eσ : σ * σ = W.B / W.n) (esd : sd * sd = W.A / W.n)
+    (h1 : (W.N / σ) / (sd * W.n) = 1) :
+    W.N ^ 2 = W.A * W.B := by
+  have hB : W.B = σ * σ * W.n := by rw [eσ]; field_simp
+  have hA : W.A = sd * sd * W.n := by rw [esd]; field_simp
+  have hd : σ * (sd * W.n) ≠ 0 := by positivity
+  rw [div_div, div_eq_one_iff_eq hd] at h1
+  rw [hA, hB, h1]; ring
+
+/-- **antisymmetry under template negation**: `h ↦ −h` flips the sign of the numerator and keeps both variances,
+so the normalised score changes sign exactly -/
+theorem Win.template_neg_antisymm (hn : W.n ≠ 0) (σ sd : α) :
+    (W.affT (-1) 0).B = W.B ∧ (W.affT (-1) 0).A = W.A ∧
+    ((W.affT (-1) 0).N / σ) / (sd * W.n) = -((W.N / σ) / (sd * W.n)) := by
+  have h := W.template_affine (-1) 0 hn
+  refine ⟨by rw [h.2.1]; ring, h.2.2, ?_⟩
+  rw [h.1]; ring
+
+/-- **negative template scaling**: `h ↦ c·h + d` with `c < 0` turns the score into its negative
+(template sd becomes `−c·σ`) -/
+theorem Win.template_neg_scale (c d : α) (hc : c < 0) (hn : W.n ≠ 0) (σ sd : α) (hσ : σ ≠ 0) :
+    ((W.affT c d).N / (-c * σ)) / (sd * W.n) = -((W.N / σ) / (sd * W.n)) := by
+  have h := W.template_affine c d hn
+  rw [h.1]
+  have : c ≠ 0 := ne_of_lt hc
+  field_simp
+
+/-- **target offset invariance** of the mean-subtracted scores: `a ↦ a + d` changes neither numerator nor variances -/
+theorem Win.target_offset_invariant (d : α) (hn : W.n ≠ 0) :
+    (W.affA 1 d).N = W.N ∧ (W.affA 1 d).A = W.A ∧ (W.affA 1 d).B = W.B := by
+  have h := W.target_affine 1 d hn
+  refine ⟨by rw [h.1]; ring, by rw [h.2.1]; ring, h.2.2⟩
+
+/-- **a constant window scores exactly 0 through the guard**: `A = 0` puts it in the low-variance branch, whose value
+`(N/σ)/n` is `0` — finite whatever `σ` is (even `σ = 0`, division by zero being `0` in the model field) -/
+theorem Win.constant_window_score_zero (c : α) (hc : ∀ k, inShape W.ms k = true → W.a k = c) (hn : W.n ≠ 0)
+    (σ : α) : (W.N / σ) / W.n = 0 ∧ W.A / W.n = 0 := by
+  have h := W.constant_window c hc hn
+  rw [h.1, h.2]; simp
+
+/-- the window that is the affine image `c·h + d` of the template: sums in closed form -/
+theorem Win.affine_image_sums (c d : α) (hn : W.n ≠ 0) :
+    (({ W with a := W.h } : Win α).affA c d).N = c * W.B ∧
+    (({ W with a := W.h } : Win α).affA c d).A = c * c * W.B ∧
+    (({ W with a := W.h } : Win α).affA c d).B = W.B := by
+  have hn' : ({ W with a := W.h } : Win α).n ≠ 0 := hn
+  have h := ({ W with a := W.h } : Win α).target_affine c d hn'
+  have hf : ({ W with a := W.h } : Win α).fbar = W.mu := rfl
+  have hN : ({ W with a := W.h } : Win α).N = W.B := by
+    rw [({ W with a := W.h } : Win α).N_centered hn', hf]; rfl
+  have hA : ({ W with a := W.h } : Win α).A = W.B := by
+    unfold Win.A; rw [hf]; rfl
+  refine ⟨by rw [h.1, hN], by rw [h.2.1, hA], h.2.2⟩
+
+/-- **equality in Cauchy–Schwarz** for every affine image of the template (any `c`, `d`) -/
+theorem Win.affine_image_cs_eq (c d : α) (hn : W.n ≠ 0) :
+    (({ W with a := W.h } : Win α).affA c d).N ^ 2 =
+      (({ W with a := W.h } : Win α).affA c d).A * (({ W with a := W.h } : Win α).affA c d).B := by
+  obtain ⟨h1, h2, h3⟩ := W.affine_image_sums c d hn
+  rw [h1, h2, h3]; ring
+
+/-- **score = 1 for a positive affine image of the template** (the 'if' half of the equality case) -/
+theorem Win.affine_image_score_one (c d : α) (hc : 0 < c) (hn : 0 < W.n)
+    (σ : α) (hσ : 0 < σ) (eσ : σ * σ = W.B / W.n) :
+    ((({ W with a := W.h } : Win α).affA c d).N / σ) / ((c * σ) * W.n) = 1 ∧
+    (c * σ) * (c * σ) = (({ W with a := W.h } : Win α).affA c d).A / W.n := by
+  obtain ⟨h1, h2, _⟩ := W.affine_image_sums c d (ne_of_gt hn)
+  have hB : W.B = σ * σ * W.n := by rw [eσ]; field_simp
+  rw [h1, h2, hB]
+  constructor <;> field_simp
+
+/-- **score = −1 for a negative affine image of the template** (window sd is `−c·σ`) -/
+theorem Win.affine_image_score_neg_one (c d : α) (hc : c < 0) (hn : 0 < W.n)
+    (σ : α) (hσ : 0 < σ) (eσ : σ * σ = W.B / W.n) :
+    ((({ W with a := W.h } : Win α).affA c d).N / σ) / ((-c * σ) * W.n) = -1 ∧
+    (-c * σ) * (-c * σ) = (({ W with a := W.h } : Win α).affA c d).A / W.n := by
+  obtain ⟨h1, h2, _⟩ := W.affine_image_sums c d (ne_of_gt hn)
+  have hB : W.B = σ * σ * W.n := by rw [eσ]; field_simp
+  have hc0 : c ≠ 0 := ne_of_lt hc
+  rw [h1, h2, hB]
+  constructor <;> field_simp
+
+end deepen6
+
+section deepen6_formulas
+variable {α : Type} [Field α] [LinearOrder α] [IsStrictOrderedRing α]
+
+/-- **FLC, absolute-value form of the bound**: `-1 ≤ score ≤ 1` for the value the code's formula yields, guard
+branch included -/
+theorem flc_formula_abs_le_one (sqrt : α → α) (hs : SqrtOk sqrt) (eps : α) (he0 : 0 < eps) (he1 : eps ≤ 1)
+    (ms : List Nat) (t : List Int) (f f2 G Wm : List Int → α) (hf2 : ∀ x, f2 x = f x * f x)
+    (hw : ∀ k, inShape ms k = true → 0 ≤ Wm (natsToInts k))
+    (hn : 0 < sumShape ms (fun k => Wm (natsToInts k)))
+    (hvar : 0 < (Win.mk ms (fun k => Wm (natsToInts k)) (fun k => f (specIdx ms t k)) (fun k => G (natsToInts k))).B) :
+    |scoreFLC (ordOps sqrt eps) (fun a b => corrSpec ms a b t) ms f f2 G Wm| ≤ 1 :=
+  (sq_le_one_iff_abs_le_one _).mp (flc_formula_sq_le_one sqrt hs eps he0 he1 ms t f f2 G Wm hf2 hw hn hvar)
+
+/-- **FLCSphericalMask, absolute-value form of the bound** -/
+theorem flcSph_formula_abs_le_one (sqrt : α → α) (hs : SqrtOk sqrt) (eps : α) (he0 : 0 < eps)
+    (ms : List Nat) (t : List Int) (rot : (List Int → α) → (List Int → α)) (f f2 g Wm : List Int → α)
+    (hf2 : ∀ x, f2 x = f x * f x)
+    (hw : ∀ k, inShape ms k = true → 0 ≤ Wm (natsToInts k))
+    (hn : 0 < sumShape ms (fun k => Wm (natsToInts k)))
+    (hvar : 0 < (Win.mk ms (fun k => Wm (natsToInts k)) (fun k => f (specIdx ms t k))
+        (fun k => rot (normT (ordOps sqrt eps) (normStats (ordOps sqrt eps) ms g Wm (maskSum (ordOps sqrt eps) ms Wm)) g Wm) (natsToInts k))).B) :
+    |scoreFLCSph (ordOps sqrt eps) (fun a b => corrSpec ms a b t) ms rot f f2 g Wm| ≤ 1 :=
+  (sq_le_one_iff_abs_le_one _).mp (flcSph_formula_sq_le_one sqrt hs eps he0 ms t rot f f2 g Wm hf2 hw hn hvar)
+
+/-- **CORR (full-box mask), absolute-value form of the bound** -/
+theorem corr_formula_abs_le_one_fullmask (sqrt : α → α) (hs : SqrtOk sqrt) (eps : α) (he0 : 0 < eps)
+    (ms : List Nat) (t : List Int) (rot : (List Int → α) → (List Int → α)) (hr : RotSum ms rot)
+    (f f2 g Wm : List Int → α) (hf2 : ∀ x, f2 x = f x * f x)
+    (hfull : ∀ k, inShape ms k = true → Wm (natsToInts k) = 1) (hpos : 0 < prodL ms) :
+    |scoreCORR (ordOps sqrt eps) (fun a b => corrSpec ms a b t) ms rot f f2 g Wm| ≤ 1 :=
+  (sq_le_one_iff_abs_le_one _).mp (corr_formula_sq_le_one_fullmask sqrt hs eps he0 ms t rot hr f f2 g Wm hf2 hfull hpos)
+
+/-- **planted-copy argmax for FLC, in the code's formula**: with the copy planted at translation `t` (score exactly 1),
+the formula's value at every other translation `t'` of the same map is at most the planted one -/
+theorem flc_formula_planted_is_argmax (sqrt : α → α) (hs : SqrtOk sqrt) (eps : α) (he0 : 0 < eps) (he1 : eps ≤ 1)
+    (ms : List Nat) (t t' : List Int) (f G Wm : List Int → α)
+    (hw : ∀ k, inShape ms k = true → 0 ≤ Wm (natsToInts k))
+    (hn : 0 < sumShape ms (fun k => Wm (natsToInts k)))
+    (hvar : 0 < (Win.mk ms (fun k => Wm (natsToInts k)) (fun k => f (specIdx ms t k)) (fun k => G (natsToInts k))).B)
+    (hvar' : 0 < (Win.mk ms (fun k => Wm (natsToInts k)) (fun k => f (specIdx ms t' k)) (fun k => G (natsToInts k))).B)
+    (hplant : ∀ k, inShape ms k = true → Wm (natsToInts k) * f (specIdx ms t k) = Wm (natsToInts k) * G (natsToInts k))
+    (hg : ¬ sqrt ((Win.mk ms (fun k => Wm (natsToInts k)) (fun k => f (specIdx ms t k)) (fun k => G (natsToInts k))).B
+                / (Win.mk ms (fun k => Wm (natsToInts k)) (fun k => f (specIdx ms t k)) (fun k => G (natsToInts k))).n) < eps) :
+    scoreFLC (ordOps sqrt eps) (fun a b => corrSpec ms a b t') ms f (fun x => f x * f x) G Wm
+      ≤ scoreFLC (ordOps sqrt eps) (fun a b => corrSpec ms a b t) ms f (fun x => f x * f x) G Wm := by
+  rw [flc_formula_planted_eq_one sqrt hs eps ms t f G Wm hw hn hvar hplant hg]
+  exact (abs_le.mp (flc_formula_abs_le_one sqrt hs eps he0 he1 ms t' f _ G Wm (fun _ => rfl) hw hn hvar')).2
+
+end deepen6_formulas
+
+section deepen6_more
+variable {α : Type} [Field α] [LinearOrder α] [IsStrictOrderedRing α]
+variable (W : Win α)
+
+/-- **squared score without square roots**: `score² · (A·B) = N²`, i.e. `score² = N²/(A·B)` whatever roots `σ`, `sd`
+of the two variances the code took -/
+theorem Win.score_sq_closed_form (hn : 0 < W.n)
+    (σ sd : α) (hσ : 0 < σ) (hsd : 0 < sd) (eσ : σ * σ = W.B / W.n) (esd : sd * sd = W.A / W.n) :
+    ((W.N / σ) / (sd * W.n)) ^ 2 * (W.A * W.B) = W.N ^ 2 := by
+  have hB : W.B = σ * σ * W.n := by rw [eσ]; field_simp
+  have hA : W.A = sd * sd * W.n := by rw [esd]; field_simp
+  rw [hA, hB]
+  field_simp
+
+/-- **antisymmetry under target negation**: `a ↦ −a` flips the numerator, keeps both variances -/
+theorem Win.target_neg_antisymm (hn : W.n ≠ 0) (σ sd : α) :
+    (W.affA (-1) 0).A = W.A ∧ (W.affA (-1) 0).B = W.B ∧
+    ((W.affA (-1) 0).N / σ) / (sd * W.n) = -((W.N / σ) / (sd * W.n)) := by
+  have h := W.target_affine (-1) 0 hn
+  refine ⟨by rw [h.2.1]; ring, h.2.2, ?_⟩
+  rw [h.1]; ring
+
+/-- negating template and target together leaves the score unchanged (contrast inversion of both volumes) -/
+theorem Win.both_neg_invariant (hn : W.n ≠ 0) (σ sd : α) :
+    (((W.affT (-1) 0).affA (-1) 0).N / σ) / (sd * W.n) = (W.N / σ) / (sd * W.n) := by
+  have h1 := (W.affT (-1) 0).target_affine (-1) 0 hn
+  have h2 := W.template_affine (-1) 0 hn
+  rw [h1.1, h2.1]; ring
+
+end deepen6_more
+
+/-- the reported (value, rotation id) is either the initial `(threshold, -1)` or one of the submissions: the
+analyzer never invents a rotation -/
+theorem strictFold_mem (thr : Int) (subs : List (Int × Int)) :
+    strictFold thr subs = (thr, -1) ∨ strictFold thr subs ∈ subs := by
+  unfold strictFold
+  have gen : ∀ (l : List (Int × Int)) (c : Int × Int), l.foldl strictStep c = c ∨ l.foldl strictStep c ∈ l := by
+    intro l
+    induction l with
+    | nil => intro c; left; rfl
+    | cons y ys ih =>
+      intro c
+      rw [List.foldl_cons]
+      rcases ih (strictStep c y) with h | h
+      · rw [h]; unfold strictStep; split
+        · right; exact List.mem_cons_self
+        · left; rfl
+      · right; exact List.mem_cons_of_mem _ h
+  exact gen subs (thr, -1)
+
+/-- the stored value exceeds the threshold exactly when some rotation was reported (id of a submission) -/
+theorem strictFold_gt_thr_mem (thr : Int) (subs : List (Int × Int)) (h : thr < (strictFold thr subs).1) :
+    strictFold thr subs ∈ subs := by
+  rcases strictFold_mem thr subs with e | e
+  · rw [e] at h; simp at h
+  · exact e
+
+example : strictFold 0 [(3, 0), (5, 1)] ∈ [((3 : Int), (0 : Int)), (5, 1)] := by decide
+
+
+/-- non-vacuity of `Win.score_lt_one_of_strict` / `Win.affine_image_score_one`: a 4-voxel window with `σ = sd = 1`
+that is not an affine image of the template (`N = 0`, `A = B = 4`) -/
+example : ∃ W : Win ℚ, 0 < W.n ∧ (1 : ℚ) * 1 = W.B / W.n ∧ (1 : ℚ) * 1 = W.A / W.n ∧ W.N ^ 2 < W.A * W.B :=
+  ⟨⟨[4], fun _ => 1, fun k => if k.headD 0 % 2 = 0 then 0 else 2, fun k => if k.headD 0 < 2 then 0 else 2⟩, by
+    norm_num [Win.N, Win.A, Win.B, Win.mu, Win.fbar, Win.n, sumShape, sumRange]⟩
+
 end Pm.C03
